@@ -301,8 +301,11 @@ PROPFIND_PROPS = ("D:resourcetype", "D:getetag", "RADICALE:displayname", "C:cale
 
 
 class Runner:
+    probe = None      # optional callable(srv, ui, request, cresp) -> anything, run after every request
+
     def __init__(self, etags, storage_type="multifilesystem", layout=None):
         self.etags = etags
+        self.sent = {}
         self.storage_type = storage_type
         self.layout = layout or {}
 
@@ -320,8 +323,12 @@ class Runner:
         with impl.Server(conf=conf) as srv:
             self.srv = srv
             self.dumps = []
+            self.pre = []
+            self.probes = []
             for ui, r in hist:
+                self.pre.append(current_etag(srv, r[1]) if r[0] in ("RPut", "RDelete") else None)
                 out.append(self.one(srv, ui, r))
+                self.probes.append(self.probe(srv, ui, r, out[-1]) if self.probe else None)
                 if want_store:
                     self.dumps.append(dump_store(srv.folder, self.etags))
             self.final = self.dumps[-1] if (want_store and self.dumps) else (dump_store(srv.folder, self.etags) if want_store else None)
@@ -399,7 +406,9 @@ class Runner:
             root = "C:calendar-multiget" if cal else "C:addressbook-multiget"
             data = ('<?xml version="1.0"?><%s xmlns:D="DAV:" %s><D:prop><D:getetag/></D:prop>%s</%s>' % (
                 root, ns, "".join("<D:href>%s</D:href>" % path_str(h) for h in hs), root))
+        self.last_headers = hdr
         st, h, b = srv.request(method, path, data=data, login=login, **hdr)
+        self.last_response = (st, h)
         return self.canon(kind, r, st, h, b, user)
 
     def canon(self, kind, r, st, h, b, user):
@@ -490,6 +499,14 @@ def parse_multistatus_list(body):
         status = response.find(xmlutils.make_clark("D:status"))
         out.append((href, int(status.text.split(" ")[1]) if status is not None else props))
     return out
+
+
+def current_etag(srv, target):
+    """ETag of whatever `target` denotes right now (item or collection), read through the storage API."""
+    st = srv.application._storage
+    with st.acquire_lock("r"):
+        it = next(iter(st.discover(path_str(target))), None)
+        return it.etag if it is not None else None
 
 
 def collection_etag(srv, target):
